@@ -90,4 +90,27 @@ def select(tag: Optional[str], items, lookup: Optional[Dict[str, int]] = None):
         lookup = {}
     return list(items)
 '''),
+    "PY6": dict(
+        positive='''
+import numpy as np
+class Op:
+    @property
+    def end_time(self) -> float:
+        return 1.5
+def latest(nodes):
+    ends = np.fromiter((node.end_time for node in nodes), dtype=int, count=len(nodes))
+    return nodes[int(np.argmax(ends))]
+''',
+        negative='''
+import numpy as np
+class Op:
+    @property
+    def end_time(self) -> float:
+        return 1.5
+def latest(nodes):
+    ends = np.fromiter((node.end_time for node in nodes), dtype=float, count=len(nodes))
+    counts = np.full(len(nodes), 0)
+    counts[0] = len(nodes)
+    return nodes[int(np.argmax(ends))], counts
+'''),
 }
